@@ -370,23 +370,54 @@ where
 	Ok(())
 }
 
-///
-fn cancel_tx_log_entry<'a, L, C, K>(
+/// What `repair_output` does to the output record once the repair is confirmed
+enum Repair {
+	/// set the record back to `Unspent`
+	MarkUnspent,
+	/// remove the record
+	Delete,
+}
+
+/// Applies one repair decided by `scan` (cancel the transaction log entry associated
+/// with `output`, then mark the output unspent or delete it), but only if it is still
+/// warranted. `scan` decides from a listing of the node's unspent outputs and from the
+/// wallet's records, which were read at different times without the wallet being locked
+/// in between: a block may have arrived, and other operations (a concurrent refresh, a
+/// finalization) may have run, since. So, under a single hold of the wallet lock, the
+/// node is asked again about this output and the record is read again; if either no
+/// longer matches what the repair assumes, nothing is done and `false` is returned.
+fn repair_output<'a, L, C, K>(
 	wallet_inst: Arc<Mutex<Box<dyn WalletInst<'a, L, C, K>>>>,
 	keychain_mask: Option<&SecretKey>,
+	client: &C,
 	output: &OutputData,
-) -> Result<(), Error>
+	commit: pedersen::Commitment,
+	expected_status: OutputStatus,
+	expected_in_utxo: bool,
+	repair: Repair,
+) -> Result<bool, Error>
 where
 	L: WalletLCProvider<'a, C, K>,
 	C: NodeClient + 'a,
 	K: Keychain + 'a,
 {
-	let parent_key_id = output.key_id.parent_path();
 	wallet_lock!(wallet_inst, w);
-	let updated_tx_entry = if output.tx_log_entry.is_some() {
+	let in_utxo = client
+		.get_outputs_from_node(vec![commit])?
+		.contains_key(&commit);
+	if in_utxo != expected_in_utxo {
+		return Ok(false);
+	}
+	let mut o = match w.get(&output.key_id, &output.mmr_index) {
+		Ok(cur) if cur.status == expected_status => cur,
+		_ => return Ok(false),
+	};
+	let parent_key_id = o.key_id.parent_path();
+	// any transaction associated with this output is cancelled
+	let updated_tx_entry = if o.tx_log_entry.is_some() {
 		let entries = updater::retrieve_txs(
 			&mut **w,
-			output.tx_log_entry,
+			o.tx_log_entry,
 			None,
 			None,
 			Some(&parent_key_id),
@@ -410,8 +441,15 @@ where
 	if let Some(t) = updated_tx_entry {
 		batch.save_tx_log_entry(t, &parent_key_id)?;
 	}
+	match repair {
+		Repair::MarkUnspent => {
+			o.status = OutputStatus::Unspent;
+			batch.save(o)?;
+		}
+		Repair::Delete => batch.delete(&o.key_id, &o.mmr_index)?,
+	}
 	batch.commit()?;
-	Ok(())
+	Ok(true)
 }
 
 /// Scan outputs with a given rewind hash view wallet.
@@ -533,7 +571,7 @@ where
 
 	// mark problem spent outputs as unspent (confirmed against a short-lived fork, for example)
 	for m in accidental_spend_outs.into_iter() {
-		let mut o = m.0;
+		let o = m.0;
 		let msg = format!(
 			"Output for {} with ID {} ({:?}) marked as spent but exists in UTXO set. \
 			 Marking unspent and cancelling any associated transaction log entries.",
@@ -542,31 +580,17 @@ where
 		if let Some(ref s) = status_send_channel {
 			let _ = s.send(StatusMessage::Scanning(msg, 99));
 		}
-		// The UTXO listing above and the wallet's records were read at different times and
-		// the wallet was not locked in between: a block spending this output may have arrived,
-		// and a concurrent refresh may have (correctly) recorded the spend, after the listing
-		// was taken. Only repair an output the node still reports as unspent and the wallet
-		// still records as spent.
-		if !client
-			.get_outputs_from_node(vec![m.1.commit])?
-			.contains_key(&m.1.commit)
-		{
-			continue;
-		}
-		{
-			wallet_lock!(wallet_inst, w);
-			match w.get(&o.key_id, &o.mmr_index) {
-				Ok(cur) if cur.status == OutputStatus::Spent => o = cur,
-				_ => continue,
-			}
-		}
-		o.status = OutputStatus::Unspent;
 		// any transactions associated with this should be cancelled
-		cancel_tx_log_entry(wallet_inst.clone(), keychain_mask, &o)?;
-		wallet_lock!(wallet_inst, w);
-		let mut batch = w.batch(keychain_mask)?;
-		batch.save(o)?;
-		batch.commit()?;
+		repair_output(
+			wallet_inst.clone(),
+			keychain_mask,
+			&client,
+			&o,
+			m.1.commit,
+			OutputStatus::Spent,
+			true,
+			Repair::MarkUnspent,
+		)?;
 	}
 
 	let mut found_parents: HashMap<Identifier, u32> = HashMap::new();
@@ -593,7 +617,7 @@ where
 	if delete_unconfirmed {
 		// Unlock locked outputs
 		for m in locked_outs.into_iter() {
-			let mut o = m.0;
+			let o = m.0;
 			let msg = format!(
 				"Confirmed output for {} with ID {} ({:?}) exists in UTXO set and is locked. \
 				 Unlocking and cancelling associated transaction log entries.",
@@ -602,12 +626,16 @@ where
 			if let Some(ref s) = status_send_channel {
 				let _ = s.send(StatusMessage::Scanning(msg, 99));
 			}
-			o.status = OutputStatus::Unspent;
-			cancel_tx_log_entry(wallet_inst.clone(), keychain_mask, &o)?;
-			wallet_lock!(wallet_inst, w);
-			let mut batch = w.batch(keychain_mask)?;
-			batch.save(o)?;
-			batch.commit()?;
+			repair_output(
+				wallet_inst.clone(),
+				keychain_mask,
+				&client,
+				&o,
+				m.1.commit,
+				OutputStatus::Locked,
+				true,
+				Repair::MarkUnspent,
+			)?;
 		}
 
 		let unconfirmed_outs: Vec<&OutputCommitMapping> = wallet_outputs
@@ -625,11 +653,16 @@ where
 			if let Some(ref s) = status_send_channel {
 				let _ = s.send(StatusMessage::Scanning(msg, 99));
 			}
-			cancel_tx_log_entry(wallet_inst.clone(), keychain_mask, &o)?;
-			wallet_lock!(wallet_inst, w);
-			let mut batch = w.batch(keychain_mask)?;
-			batch.delete(&o.key_id, &o.mmr_index)?;
-			batch.commit()?;
+			repair_output(
+				wallet_inst.clone(),
+				keychain_mask,
+				&client,
+				&o,
+				m.commit,
+				OutputStatus::Unconfirmed,
+				false,
+				Repair::Delete,
+			)?;
 		}
 	}
 
